@@ -79,7 +79,7 @@ def run_hyp_part(mod, part, stats, tier, seed, deadline, known):
             # flaky); past a grace period stop exploring smaller candidates and let it finish with what it has
             if case == state['last_fail']['case']:
                 raise Found(state['last_fail']['outcome']['msg'])
-            if time.time() > deadline + 120:
+            if time.time() > deadline + 40:
                 return
         try:
             out = call_run(part, case)
